@@ -10,8 +10,9 @@ FRAME_FORMATS = ["ebyte", "usb", "yd", "ydT", "ydlow", "plain", "plainz"]
 WHOLE_FORMATS = ["actisense", "plain_combined"]
 
 
-def feed_frame(dec, fmt, fr):
-    """Deliver one CAN frame through the gateway format `fmt`; returns (message|None, exception|None)."""
+def feed_frame(dec, fmt, fr, ts=None):
+    """Deliver one CAN frame through the gateway format `fmt`; returns (message|None, exception|None).
+    ts: optional timestamp text the gateway stamps on the line (plain formats only)."""
     pgn, src, dst, prio, hx = fr
     data = bytes.fromhex(hx)
     try:
@@ -26,9 +27,9 @@ def feed_frame(dec, fmt, fr):
         if fmt == "ydlow":
             return dec.decode_yacht_devices_string(n2k.yd_line(n2k.can_id(pgn, src, dst, prio), data, "R", True)), None
         if fmt == "plain":
-            return dec.decode_basic_string(n2k.plain_line(pgn, src, dst, prio, data, False)), None
+            return dec.decode_basic_string(n2k.plain_line(pgn, src, dst, prio, data, False, ts)), None
         if fmt == "plainz":
-            return dec.decode_basic_string(n2k.plain_line(pgn, src, dst, prio, data, True)), None
+            return dec.decode_basic_string(n2k.plain_line(pgn, src, dst, prio, data, True, ts)), None
     except Exception as e:
         return None, e
     raise ValueError(fmt)
